@@ -1,7 +1,7 @@
 """C05 — when the engine goes quiet every workflow is finished or explicitly waiting (engine-level: Mode-A trace differential + monitors; see harness/engine_suites.py)."""
 from __future__ import annotations
 
-from harness import conc_suite, engine_suites, synth_suites
+from harness import conc_suite, dstatus_suite, engine_suites, synth_suites
 
 RULE = ("random workflows (1-5 stages, every join type, scripted task outcomes incl. polling / transient / jump / suspend) x "
         "delivery schedules (fifo | random order | random + redelivery of unacknowledged messages | arbitrary incl. early re-polls), "
@@ -10,6 +10,7 @@ RULE = ("random workflows (1-5 stages, every join type, scripted task outcomes i
         " PLUS the synthetic-stage family (harness/synth_suites.py, IMPLEMENTATION-ONLY: monitors on real-engine traces, no model line): workflows of 1-3 top-level stages (single | chain | two parallel roots | fan-in), some with 1-2 pre-declared STAGE_BEFORE and / or STAGE_AFTER children (children 1 task, parents 0-2; task results succeed | terminal | fail-continue | poll then succeed | suspend), stored through the real store, driven by fifo | random | redelivery | starve | arbitrary schedules, cancel before a random step or inside the parent-waits-for-child window, signals for suspended stages, recovery sweeps injected into healthy runs, and (every fourth unit) kill after k commits + restart + sweep(s) + late redelivery + drain; judged by smon_c05 (children included) and the transition-table monitor; "
         "PLUS the pause / resume dimension (harness/synth_suites.py, family 'pause', IMPLEMENTATION-ONLY: monitors on real-engine traces, no model line; signatures prefixed pause:): plain workflows (engine_suites.gen_spec w0, sometimes one suspending task) AND synthetic-stage ones; operator ops p = store.pause (only while the workflow is RUNNING), u = Orchestrator.unpause, r = store.resume injected at random steps into fifo | random | redelivery | starve schedules, combined with a cancel (often issued together with the un-pause, or while paused), signals and a second pause; every third unit is the directed 'parked' member (2-3 parallel stages all parked PAUSED, then un-pause or cancel + un-pause, random order); in 20 % of the runs nobody un-pauses, otherwise the operator keeps at it until nothing is paused (settle_pause: unpause, drain, store.resume if the row is still PAUSED with nothing parked); judged by smon_c05 (after un-pause + drain the workflow is final or explicitly waiting; a workflow / stage still PAUSED because nobody un-paused it counts as explicitly waiting; still PAUSED after the un-pause idiom = still-paused-after-unpause) and the transition-table monitor; "
         "PLUS the operator restart dimension (harness/synth_suites.py, family 'restart', IMPLEMENTATION-ONLY: monitors on real-engine traces, no model line; signatures prefixed restart:): plain (gen_spec w0 / w1, no jumps) and synthetic-stage workflows are run to the drain (70 %) or for k random steps, then op R<i> = Orchestrator.restart (-> RestartStage, code RR.<s>) 1-2 times on a random COMPLETED top-level stage (15 %: on a stage that is not completed - must be ignored), sometimes a cancel before / after (restart inside a canceled workflow must be refused), fifo | random drain; judged by smon_c05 (drained => final or explicitly waiting; SUCCEEDED => every top-level stage continuable; no RUNNING stage in a finished workflow)"
+        " PLUS the stage-status rule in isolation (harness/dstatus_suite.py): the real StageExecution.determine_status() of a stage without synthetic children against the model's determineStatus (driver form `engine dstatus`) on EVERY task-status list of length <= 3 (thorough: 4) over the 12 statuses x continuePipelineOnFailure x failPipeline x current status, plus random lists of 4-12 mostly-finished tasks; oracles restate the theorems stage_succeeded_means_every_task_ok, stage_complete_means_no_open_task_or_a_halted_one, taskless_stage_status on the code"
         " PLUS the concurrency-limit / cancel-before-start family (harness/conc_suite.py, IMPLEMENTATION-ONLY, signatures prefixed conc:): 2-4 workflows with one pipeline_config_id, is_limit_concurrent, limit 1 | 2, keep_waiting_pipelines on | off in ONE database and queue, started together or staggered, store.cancel() (the flag only) on some of them BEFORE their start, Orchestrator.cancel at random moments, in-order or random delivery; oracles: drained => every workflow final or BUFFERED while the limit is really used up, never more RUNNING than the limit, a workflow whose cancel flag is set is final once the queue is drained")
 ASSUMPTIONS = ["delays are abstracted: budget-respecting schedules deliver a delayed message only when no immediate one is pending",
                "per-workflow circuit breaker disabled in the harness (volatile state outside the model)",
@@ -26,6 +27,8 @@ TRUSTED_BASE = ["Engine model (lean/Stab/Model/Engine.lean) is hand-written; tie
 
 def run(ctx) -> None:
     engine_suites.run_for(ctx, "C05")
+    # the stage-status rule alone: real determine_status vs the model on every short task list + the theorems' oracles
+    dstatus_suite.run_for(ctx, "C05")
     # synthetic before/after stages: implementation-only family (monitors on real-engine traces, no model line)
     synth_suites.run_for(ctx, "C05")
     # pause / resume dimension (plain and synthetic-stage workflows): implementation-only as well
@@ -41,6 +44,8 @@ def search(ctx) -> None:
 
 
 def replay(ctx, body) -> int:
+    if dstatus_suite.is_replay(body):
+        return dstatus_suite.replay(ctx, body, "C05")
     if conc_suite.is_replay(body):
         return conc_suite.replay(ctx, body)
     if synth_suites.is_synth_replay(body):
